@@ -71,3 +71,4 @@ impl Spanned for Option<TokenStream> {
     fn span(&self) -> (r: Span) { unimplemented!() }
 }
 }
+
